@@ -2,9 +2,12 @@ package nut
 
 import (
 	"bytes"
+	"context"
 	"encoding/json"
 	"fmt"
 	"net/http/httptest"
+	"runtime"
+	"runtime/debug"
 	"testing/synctest"
 	"time"
 
@@ -25,7 +28,9 @@ func init() {
 			"tampered fields and signatures; bursts) interleaved with local broadcasts and kicks; a clean batch is evidence, not proof",
 		LevelNote: "real: chain.StartLFBTicketWorker (goroutine inside the bubble), chain.LFBTicketHandler fed with an in-memory *http.Request (JSON decoding, verifyLFBTicket, AddReceivedLFBTicket), BroadcastLFBTicket (sharder identity), " +
 			"AddReceivedLFBTicket with a blank ticket (the miner's own bumpLFBTicket kick), GetLatestLFBTicket read only at quiescence (synctest.Wait()), the rebroadcast timer on the fake clock, sendLFBTicket into the captured LFBTicketSender. " +
-			"Bypassed: the HTTP mux / N2NRateLimit / ToJSONResponse wrappers around the handler; tickets of one burst are pushed from one goroutine, so their channel order is the plan's order. " +
+			"Bypassed: the HTTP mux / N2NRateLimit / ToJSONResponse wrappers around the handler. Single tickets: handler on the NUT's chain, then synctest.Wait(). Bursts (k tickets queued when the worker wakes, plan order): " +
+			"each ticket passes the shipped handler (decode + verifyLFBTicket) on a shadow chain.Chain with the same magic blocks and current round; the accepted ones are then pushed into the NUT's queue with the exported " +
+			"AddReceivedLFBTicket (the call the handler makes) in one loop of buffered channel sends under GOMAXPROCS(1) with GC off, while the worker is parked, so the queue content at wake-up is the plan's, not the Go scheduler's. " +
 			"The oracle verifies the adopted ticket itself with the shipped signature scheme against the sharder pool of the node's current magic block",
 		Technique: "deterministic simulation: real ticket worker in a synctest bubble, byzantine ticket injection through the real handler, quiescence-only observation",
 		DesignRef: "6/C41, 8", Regime: "single-threaded event loop inside a synctest bubble; synctest.Wait() after every input (after the last ticket of a burst)",
@@ -93,6 +98,16 @@ func genC41(seed uint64, tier string) *sim.Plan {
 			k := r.Range(2, 6)
 			for j := 0; j < k; j++ {
 				st.I = append(st.I, one()...)
+			}
+			if r.Bool(0.5) {
+				// genuine sharder tickets at both ends: a fresh round first, a stale or lower one last (or the reverse)
+				hi := []int64{0, 0, int64(r.Range(1, 4)), int64(r.Intn(8)), int64(r.Intn(4096))}
+				lo := []int64{0, 0, int64(r.Range(-3, 0)), int64(r.Intn(8)), int64(r.Intn(4096))}
+				if r.Bool(0.25) {
+					hi, lo = lo, hi
+				}
+				copy(st.I[:5], hi)
+				copy(st.I[len(st.I)-5:], lo)
 			}
 			p.Steps = append(p.Steps, st)
 		case 2:
@@ -220,6 +235,23 @@ func runC41(env *sim.Env, p *sim.Plan) *sim.Result {
 		last = tk
 	}
 
+	// Shadow chain for bursts (see the burst step): same magic blocks and current round as the NUT's chain, no workers.
+	shadow := chain.Provider().(*chain.Chain)
+	if w.OldMB != nil {
+		shadow.SetMagicBlock(w.OldMB)
+	}
+	shadow.SetMagicBlock(w.MB)
+	if cr := c.GetCurrentRound(); cr > 0 {
+		shadow.SetCurrentRound(cr)
+	}
+	if shadow.GetCurrentMagicBlock() != c.GetCurrentMagicBlock() {
+		panic("shadow chain disagrees on the current magic block")
+	}
+	doneCtx, doneCancel := context.WithCancel(w.Ctx)
+	doneCancel()
+	inBurst := false
+	var pending []*chain.LFBTicket
+
 	send := func(a []int64) string {
 		signerK := c41Signers[int(a[0])%len(c41Signers)]
 		tamper := c41Tampers[int(a[1])%len(c41Tampers)]
@@ -302,7 +334,23 @@ func runC41(env *sim.Env, p *sim.Plan) *sim.Result {
 			body, _ = json.Marshal(tk)
 		}
 		req := httptest.NewRequest("POST", "/v1/block/get/latest_finalized_ticket", bytes.NewReader(body))
-		_, herr := chain.LFBTicketHandler(w.Ctx, req)
+		var herr error
+		if !inBurst {
+			_, herr = chain.LFBTicketHandler(w.Ctx, req)
+		} else {
+			// burst: the shipped handler (decode + verifyLFBTicket) runs against the shadow chain, which has the same magic
+			// blocks and current round but no worker; what it accepts is queued for the gated enqueue below
+			chain.SetServerChain(shadow)
+			_, herr = chain.LFBTicketHandler(doneCtx, req)
+			chain.SetServerChain(c)
+			if herr == nil {
+				var acc chain.LFBTicket
+				if err := json.Unmarshal(body, &acc); err != nil {
+					panic(err)
+				}
+				pending = append(pending, &acc)
+			}
+		}
 		if tk.Round <= last.Round {
 			tr.Fault("stale_round_ticket")
 		}
@@ -320,15 +368,45 @@ func runC41(env *sim.Env, p *sim.Plan) *sim.Result {
 			tr.Event("recv %s", d)
 			observe("a received ticket " + d)
 		case "burst":
+			// k tickets are in the worker's queue when it wakes up, in the plan's order. How many tickets are queued when
+			// the worker runs is otherwise up to the Go scheduler (the handler's BLS check is a cgo call during which the
+			// worker gets a P), so a burst is made in two phases: (1) every ticket goes through the shipped handler on the
+			// shadow chain, (2) the accepted ones are pushed into the real queue with the exported AddReceivedLFBTicket
+			// (what the handler calls) in one tight loop of buffered channel sends while the worker, parked in its select,
+			// cannot get a processor: GOMAXPROCS(1), no cgo, no allocation, GC off.
 			var ds []string
+			inBurst, pending = true, pending[:0]
 			for i := 0; i+5 <= len(st.I); i += 5 {
 				ds = append(ds, send(st.I[i:i+5]))
 			}
+			inBurst = false
 			if len(ds) == 0 {
 				continue
 			}
+			if len(pending) > 90 {
+				pending = pending[:90] // queue capacity is 100
+			}
+			synctest.Wait() // the worker is parked in its select
+			gc := debug.SetGCPercent(-1)
+			procs := runtime.GOMAXPROCS(1)
+			for _, tk := range pending {
+				c.AddReceivedLFBTicket(w.Ctx, tk)
+			}
+			runtime.GOMAXPROCS(procs)
+			debug.SetGCPercent(gc)
+			if len(pending) > 1 {
+				tr.Fault("several_tickets_queued_at_once")
+				lo, hi := false, false
+				for _, tk := range pending {
+					lo = lo || tk.Round <= last.Round
+					hi = hi || tk.Round > last.Round
+				}
+				if lo && hi && pending[len(pending)-1].Round <= last.Round {
+					tr.Fault("queue_ends_with_stale_ticket_after_fresh_one")
+				}
+			}
 			tr.Fault("burst")
-			tr.Event("burst %v", ds)
+			tr.Event("burst %v queued=%d", ds, len(pending))
 			tr.Outcome("burst")
 			observe(fmt.Sprintf("a burst of %d tickets", len(ds)))
 		case "bcast":
